@@ -11,6 +11,13 @@ MATCHERS = {}
 
 def run(res: C.Result, deep: bool):
     MP.run_for(PROP, res, deep, MATCHERS)
+    # the client half of the property: real Client objects on both sides of the real manager (implementation only)
+    from .. import route_e2e as E
+    r = E.run(res.seed, deep)
+    res.evaluations += r["cases"]
+    res.extra["e2e_real_clients"] = {k: r[k] for k in ("cases", "messages", "clients")}
+    for f in r["failures"][:20]:
+        res.failures.append(C.Failure(clause=f["clause"], case=f["case"], detail=f["detail"][:600]))
     if deep:
         # the fake socket layer against real TCP: sequential scenarios through a real manager on localhost
         from .. import mgr_tcp as T
@@ -27,4 +34,10 @@ def run(res: C.Result, deep: bool):
 
 
 def replay(body):
+    case = body.get("case") or {}
+    if case.get("kind") == "e2e":
+        from .. import route_e2e as E
+        fails = E.run_case(case["case"])
+        print("\n".join(fails) or "ok")
+        return 1 if fails else 0
     return MP.replay(PROP, body)
